@@ -59,6 +59,9 @@ def run_case(case):
                     n = streamz.zip(*U)
                 elif kind == "combine":
                     n = streamz.combine_latest(*U)
+                elif kind == "combine_on":
+                    # combine_latest that emits only when its FIRST input delivers (explicit emit_on)
+                    n = streamz.combine_latest(*U, emit_on=U[0])
                 i = len(wr)
                 held[i] = n
                 wr[i] = weakref.ref(n)
